@@ -23,17 +23,19 @@ Theorem C04_block_confluence_sets : forall fuel1 fuel2 p s B h o1 o2,
 Proof. exact block_confluence_sets. Qed.
 Print Assumptions C04_block_confluence_sets.
 
-(** Pass level, bind-free graphs: whatever order each block is processed in. *)
+(** Pass level, bind-free graphs ([pass_ok]), node functions that may set vars but do not fail and
+    do not set the same var from two nodes of one height ([plan_par_ok]): whatever order each block
+    is processed in, the pass returns the same error and ≈-related states. *)
 Theorem C04_pass_schedule_independent : forall sched1 sched2 p s t e,
-  fair sched1 -> fair sched2 -> quiet_all p -> pass_ok s ->
+  fair sched1 -> fair sched2 -> plan_par_ok p s -> pass_ok s ->
   parStabilizeS sched1 p s = Ok (t, e) ->
   exists t', parStabilizeS sched2 p s = Ok (t', e) /\ t ≈ t' /\ (status s = 0 -> e = None).
-Proof. exact pass_schedule_independent. Qed.
+Proof. exact pass_schedule_independent_sets. Qed.
 Print Assumptions C04_pass_schedule_independent.
 
 (** ... in particular the schedule [Engine.parStabilize] models (queue order) against any other *)
 Theorem C04_parStabilize_any_schedule : forall sched p s t e,
-  fair sched -> quiet_all p -> pass_ok s -> parStabilize p s = Ok (t, e) ->
+  fair sched -> plan_par_ok p s -> pass_ok s -> parStabilize p s = Ok (t, e) ->
   exists t', parStabilizeS sched p s = Ok (t', e) /\ t ≈ t'.
 Proof. exact parStabilize_any_schedule. Qed.
 Print Assumptions C04_parStabilize_any_schedule.
@@ -72,8 +74,14 @@ Qed.
 (** the two orders of that block really differ (the logs are not equal), yet are ≈ *)
 Example C04_ex_block_orders_differ :
   is_ok (run_block 0 [] ex_mid_s [2; 3]%nat) = true /\ is_ok (run_block 0 [] ex_mid_s [3; 2]%nat) = true /\
-  bool_decide (log (blk_state (run_block 0 [] ex_mid_s [2; 3]%nat)) = log (blk_state (run_block 0 [] ex_mid_s [3; 2]%nat))) = false.
-Proof. split; [vm_compute; reflexivity|]. split; vm_compute; reflexivity. Qed.
+  log (blk_state (run_block 0 [] ex_mid_s [2; 3]%nat)) <> log (blk_state (run_block 0 [] ex_mid_s [3; 2]%nat)).
+Proof. split; [vm_compute; reflexivity|]. split; [vm_compute; reflexivity|]. vm_compute. discriminate. Qed.
+
+Theorem C04_plan_par_okb_sound : forall p s, plan_par_okb p s = true -> plan_par_ok p s.
+Proof. exact plan_par_okb_sound. Qed.
+
+Example C04_ex_plan_hyps : plan_par_ok ex_plan ex_pre /\ plan_par_ok [] ex_pre.
+Proof. split; apply plan_par_okb_sound; vm_compute; reflexivity. Qed.
 
 Theorem C04_sets_okb_sound : forall p s B, sets_okb p s B = true -> sets_ok p s B.
 Proof. exact sets_okb_sound. Qed.
@@ -208,8 +216,8 @@ Example C04_bind_ids_depend_on_schedule :
   let t2 := pass_state (parStabilizeS rev_sched [] w_pre) in
   fair queue_order /\ fair rev_sched /\
   parStabilizeS queue_order [] w_pre = Ok (t1, None) /\ parStabilizeS rev_sched [] w_pre = Ok (t2, None) /\
-  obsValues t1 = obsValues t2 /\ bool_decide (reg t1 = reg t2) = false.
+  obsValues t1 = obsValues t2 /\ reg t1 <> reg t2.
 Proof.
   cbv zeta. split; [exact queue_order_fair|]. split; [exact rev_sched_fair|].
-  split; [vm_compute; reflexivity|]. split; [vm_compute; reflexivity|]. split; vm_compute; reflexivity.
+  split; [vm_compute; reflexivity|]. split; [vm_compute; reflexivity|]. split; [vm_compute; reflexivity|]. vm_compute. discriminate.
 Qed.
